@@ -2,6 +2,7 @@
 # harness/goal.sh <file.v> <line> : show the proof state after <line> lines of the file (dev helper)
 f="$1"; n="$2"; d="$(dirname "$f")"; b="$(basename "$f" .v)"
 tmp="$d/Tmp_goal_$$.v"
+trap 'rm -f "$d/Tmp_goal_$$".* "$d/.Tmp_goal_$$".*' EXIT
 head -n "$n" "$f" > "$tmp"; echo "Show. " >> "$tmp"
 cd "$(dirname "$0")/../coq" && timeout 300 coqc -Q . EV "${tmp#$(pwd)/}" 2>&1 | tail -${3:-40}
 rm -f "$d/Tmp_goal_$$".* "$d/.Tmp_goal_$$".*
